@@ -141,6 +141,15 @@ def excluded(s, path):
                 return True
             if any(c.endswith(e[1:]) for c in comps[:-1]):
                 dontcare = True
+        elif b"/" in e:
+            # a slash inside and none at the end: neither a `name/` nor a `*.ext` entry, so the property text
+            # gives it no meaning beyond the path it spells out (Goit reads it as "this text, then anything")
+            if path == e:
+                return True
+            want = e.split(b"/")[:-1]
+            n = len(want)
+            if any(comps[i:i + n] == want for i in range(0, len(comps) - n + 1)):
+                dontcare = True
         else:
             if comps[-1] == e or path == e:
                 return True
@@ -332,9 +341,16 @@ def o_c04(recs):
             if lost:
                 bad.append((i, "rm removed or changed the untracked file(s) %r" % sorted(lost)[:3]))
                 continue
-        if fd_conflict(b):
-            continue
         args = [x for x in st.argv[1:] if x != b"--"]
+        if fd_conflict(b):
+            # a tracked path is a directory on disk or lies below a file: most of the property's clauses do not
+            # say what should happen, but one does: "a named path that is tracked but no longer exists is
+            # unstaged" (a path whose parent has become a file no longer exists either)
+            sb0 = staged(b)
+            gone_tracked = (st.name == "add" and args and len(set(args)) == len(args)
+                            and all(x in sb0 and x not in b.files and x not in b.dirs for x in args))
+            if not gone_tracked:
+                continue
         if st.name == "add":
             exp = expected_add(b, args) if args else None
             if exp is None:
